@@ -85,7 +85,7 @@ func (f *Fail) Error() string {
 }
 
 // Keys is the key alphabet ("" means "no key").
-var Keys = []string{"k1", "k2", "k3", "k4", ""}
+var Keys = []string{"k1", "k2", "k3", "k4", "", "k5", "k6", "k7", "k8", "k9", "a-much-longer-affinity-key/with.dots:and-unicode-ключ-0123456789012345678901234567890123456789", "K1"}
 
 // Method describes one configured (or unconfigured) method name.
 type Method struct {
